@@ -41,6 +41,7 @@ type Case struct {
 	ServerCert bool   `json:"server_cert,omitempty"`
 	MustSecure bool   `json:"must_secure,omitempty"`
 	Insecure   bool   `json:"insecure,omitempty"`
+	ClientTLS  string `json:"client_tls,omitempty"` // key-mismatch | cert-file-missing: the client cannot load its own TLS material
 	// scripted server
 	Announce string `json:"announce,omitempty"`
 	Upgrade  string `json:"upgrade,omitempty"`
@@ -52,6 +53,9 @@ type Case struct {
 func (c Case) String() string {
 	switch c.Part {
 	case "honest":
+		if c.ClientTLS != "" {
+			return fmt.Sprintf("honest %s encrypted=%v serverCert=%v mustSecure=%v insecure=%v clientTLS=%s", c.Carrier, c.Encrypted, c.ServerCert, c.MustSecure, c.Insecure, c.ClientTLS)
+		}
 		return fmt.Sprintf("honest %s encrypted=%v serverCert=%v mustSecure=%v insecure=%v", c.Carrier, c.Encrypted, c.ServerCert, c.MustSecure, c.Insecure)
 	case "scripted-server":
 		return fmt.Sprintf("scripted-server announce=%q upgrade=%q post=%q mustSecure=%v insecure=%v", c.Announce, c.Upgrade, c.Post, c.MustSecure, c.Insecure)
@@ -70,7 +74,7 @@ func (c Case) String() string {
 func honest(t *testing.T, c Case) (kind, detail string) {
 	res := bubble.Run(t, func() {
 		var caps []*netsim.MemConn
-		o := world.Options{Carrier: c.Carrier, TLS: c.Encrypted, Channels: []string{"x"}, Keep: true, MustSecure: c.MustSecure, Insecure: c.Insecure, ClientKnowsCA: true,
+		o := world.Options{Carrier: c.Carrier, TLS: c.Encrypted, Channels: []string{"x"}, Keep: true, MustSecure: c.MustSecure, Insecure: c.Insecure, ClientKnowsCA: true, ClientTLSBroken: c.ClientTLS,
 			OnDial: func(cl, sv *netsim.MemConn) {
 				cl.CaptureOutgoing()
 				sv.CaptureOutgoing()
@@ -433,6 +437,13 @@ func cases() []Case {
 				for _, ms := range []bool{false, true} {
 					for _, ins := range []bool{false, true} {
 						out = append(out, Case{Part: "honest", Carrier: carrier, Encrypted: enc, ServerCert: crt, MustSecure: ms, Insecure: ins})
+						if !enc && crt && carrier != "udp" {
+							// a StartTLS-capable server and a client whose own certificate material cannot be loaded:
+							// whatever the client does, it must not carry the payload in the clear
+							for _, broken := range []string{"key-mismatch", "cert-file-missing"} {
+								out = append(out, Case{Part: "honest", Carrier: carrier, ServerCert: true, MustSecure: ms, Insecure: ins, ClientTLS: broken})
+							}
+						}
 					}
 				}
 			}
